@@ -178,6 +178,7 @@ func main() {
 			}
 			return true
 		})
+		rewriteOwnerMutexes(f, info, &sum)
 		rewriteMutexTypes(f, info, &sum)
 
 		// 2. access instrumentation
@@ -225,6 +226,62 @@ func isSyncMutex(t types.Type) bool {
 		return n.Obj().Name() == "Mutex" || n.Obj().Name() == "RWMutex"
 	}
 	return false
+}
+
+// ownerMutex describes a sync.Mutex field of a struct: it gets its own wrapper
+// type so that the lock can be named after its owner ("Object(Keeper).mu"),
+// which is stable across runs and schedules (addresses are not).
+type ownerMutex struct {
+	Struct, Field string
+	HasN          bool
+}
+
+var ownerMutexes []ownerMutex
+
+func rewriteOwnerMutexes(f *ast.File, info *types.Info, sum *summary) {
+	for _, d := range f.Decls {
+		gd, ok := d.(*ast.GenDecl)
+		if !ok {
+			continue
+		}
+		for _, sp := range gd.Specs {
+			ts, ok := sp.(*ast.TypeSpec)
+			if !ok {
+				continue
+			}
+			st, ok := ts.Type.(*ast.StructType)
+			if !ok {
+				continue
+			}
+			for _, fld := range st.Fields.List {
+				se, ok := fld.Type.(*ast.SelectorExpr)
+				if !ok || len(fld.Names) != 1 {
+					continue
+				}
+				id, ok := se.X.(*ast.Ident)
+				if !ok {
+					continue
+				}
+				pn, ok := info.Uses[id].(*types.PkgName)
+				if !ok || pn.Imported().Path() != "sync" || se.Sel.Name != "Mutex" {
+					continue
+				}
+				om := ownerMutex{Struct: ts.Name.Name, Field: fld.Names[0].Name}
+				if obj := info.Defs[ts.Name]; obj != nil {
+					if o, _, _ := types.LookupFieldOrMethod(obj.Type(), true, obj.Pkg(), "N"); o != nil {
+						if v, ok := o.(*types.Var); ok {
+							if b, ok := v.Type().Underlying().(*types.Basic); ok && b.Kind() == types.String {
+								om.HasN = true
+							}
+						}
+					}
+				}
+				ownerMutexes = append(ownerMutexes, om)
+				fld.Type = &ast.Ident{Name: "VerifMutex_" + om.Struct + "_" + om.Field, NamePos: se.Pos()}
+				sum.MutexTypes++
+			}
+		}
+	}
 }
 
 func rewriteMutexTypes(f *ast.File, info *types.Info, sum *summary) {
@@ -636,8 +693,8 @@ import (
 // VerifHook is implemented by the simulator's scheduler glue.
 type VerifHook interface {
 	// Lock acquires m cooperatively: try must be called when the scheduler
-	// believes the lock free.
-	Lock(m unsafe.Pointer, try func() bool)
+	// believes the lock free. name identifies the lock by its owner ("" if unknown).
+	Lock(m unsafe.Pointer, name string, try func() bool)
 	// Unlocked is called after the real unlock.
 	Unlocked(m unsafe.Pointer)
 	// Access is called before a statement that reads / writes a watched field.
@@ -665,7 +722,15 @@ type VerifMutex struct{ mu sync.Mutex }
 
 func (m *VerifMutex) Lock() {
 	if h := VerifSimHook; h != nil {
-		h.Lock(unsafe.Pointer(m), m.mu.TryLock)
+		h.Lock(unsafe.Pointer(m), "", m.mu.TryLock)
+		return
+	}
+	m.mu.Lock()
+}
+
+func (m *VerifMutex) lockNamed(name func() string) {
+	if h := VerifSimHook; h != nil {
+		h.Lock(unsafe.Pointer(m), name(), m.mu.TryLock)
 		return
 	}
 	m.mu.Lock()
@@ -686,7 +751,7 @@ type VerifRWMutex struct{ mu sync.RWMutex }
 
 func (m *VerifRWMutex) Lock() {
 	if h := VerifSimHook; h != nil {
-		h.Lock(unsafe.Pointer(m), m.mu.TryLock)
+		h.Lock(unsafe.Pointer(m), "", m.mu.TryLock)
 		return
 	}
 	m.mu.Lock()
@@ -701,7 +766,7 @@ func (m *VerifRWMutex) Unlock() {
 
 func (m *VerifRWMutex) RLock() {
 	if h := VerifSimHook; h != nil {
-		h.Lock(unsafe.Pointer(m), m.mu.TryLock)
+		h.Lock(unsafe.Pointer(m), "", m.mu.TryLock)
 		return
 	}
 	m.mu.RLock()
@@ -738,5 +803,24 @@ func verifAccess(id int, addr func() unsafe.Pointer, write bool, site string) {
 	}
 }
 `)
+	for _, om := range ownerMutexes {
+		tn := "VerifMutex_" + om.Struct + "_" + om.Field
+		name := `"` + om.Struct + "." + om.Field + `"`
+		if om.HasN {
+			name = `"` + om.Struct + `(" + o.N + ").` + om.Field + `"`
+		}
+		fmt.Fprintf(&b, `
+// %[1]s is the mutex %[2]s.%[3]s, named after its owner.
+type %[1]s struct{ VerifMutex }
+
+func (m *%[1]s) Lock() {
+	m.VerifMutex.lockNamed(func() string {
+		o := (*%[2]s)(unsafe.Pointer(uintptr(unsafe.Pointer(m)) - unsafe.Offsetof(((*%[2]s)(nil)).%[3]s)))
+		_ = o
+		return %[4]s
+	})
+}
+`, tn, om.Struct, om.Field, name)
+	}
 	return b.String()
 }
